@@ -1,8 +1,9 @@
 SPECIFICATION Spec
 CONSTANTS
-  NRand = 12
+  NRand = 10
   WsCount = 3
   PreLayouts = 1
+  NRandS = 6
 INVARIANTS
   Inv_Layout
   Inv_Norm
